@@ -47,6 +47,9 @@ def shapes(tier):
             t2 = "y" if t == "x" else "x"
             nested.append((t, [(None, p), (t2, q)]))
             nested.append((t, [(t2, q), (None, p), (t2, "L")]))
+            if p:
+                nested.append((t, [("NONE", p), (t2, q)]))  # an explicit (None, text) tuple inside a tagged group: its innermost tag is None
+                nested.append((t, [(t2, "L"), ("NONE", [(None, p), (t2, q)]), (None, "L")]))
     deep = [("x", [(None, "L"), ("y", [(None, "W"), ("x", "L"), (None, "LC")]), (None, "L")])]
     items = flat + nested + (deep if tier != "quick" else deep[:1])
     out = []
@@ -96,6 +99,10 @@ def instantiate(shape, mode):
 
     def build(item, cur):
         tag, body = item
+        if tag == "NONE":
+            if isinstance(body, list):
+                return (None, [build(b, None) for b in body])
+            return (None, piece(body, None))
         t = tag if tag is not None else cur
         if isinstance(body, list):
             inner = [build(b, t) for b in body]
